@@ -1,0 +1,36 @@
+//go:build verif
+
+package cli
+
+import "io"
+
+// VerifC12Run runs the command with explicit arguments and streams (what Run does with os.Args and
+// the os streams). The colour table is a set of package variables that setColors overwrites for good:
+// it is saved and restored so that successive calls are independent.
+func VerifC12Run(args []string, in io.Reader, out, errw io.Writer) int {
+	defer verifC12SaveColors()()
+	return (&cli{inStream: in, outStream: out, errStream: errw}).run(args)
+}
+
+// VerifC12Encode calls the command's JSON encoder directly on a Go value. colors == "default" keeps
+// the built-in table, anything else goes through setColors (the GOJQ_COLORS syntax).
+func VerifC12Encode(v any, tab bool, indent int, nocolor bool, colors string, w io.Writer) error {
+	defer verifC12SaveColors()()
+	defer func(x bool) { noColor = x }(noColor)
+	noColor = nocolor
+	if colors != "default" {
+		if err := setColors(colors); err != nil {
+			return err
+		}
+	}
+	return newEncoder(tab, indent).marshal(v, w)
+}
+
+func verifC12SaveColors() func() {
+	saved := [...][]byte{nullColor, falseColor, trueColor, numberColor,
+		stringColor, objectKeyColor, arrayColor, objectColor}
+	return func() {
+		nullColor, falseColor, trueColor, numberColor = saved[0], saved[1], saved[2], saved[3]
+		stringColor, objectKeyColor, arrayColor, objectColor = saved[4], saved[5], saved[6], saved[7]
+	}
+}
